@@ -172,7 +172,7 @@ func loadKnownFindings(path string) []KnownFinding {
 // contractLevel: obligation kinds recorded in the ledger (their disappearance is a failure).
 func contractLevel(kind string) bool {
 	switch kind {
-	case "ensures", "inv", "variant", "frame", "lemma", "chaninv", "stable", "cover", "static":
+	case "ensures", "inv", "variant", "frame", "lemma", "chaninv", "stable", "cover", "static", "typeinv":
 		return true
 	}
 	return false
@@ -215,6 +215,22 @@ func RunCheck(opt Options) int {
 	for fn, ct := range P.Contracts {
 		if hasProp(ct.Props, opt.Prop) && !ct.Trusted {
 			fns = append(fns, fn)
+		}
+	}
+	// functions that allocate a type whose invariant belongs to this property
+	inFns := map[*ssa.Function]bool{}
+	for _, fn := range fns {
+		inFns[fn] = true
+	}
+	for _, ti := range P.Spec.TypeInvs {
+		if !hasProp(ti.Props, opt.Prop) {
+			continue
+		}
+		for _, fn := range P.ModFuncs {
+			if !inFns[fn] && P.allocatesType(fn, ti) {
+				inFns[fn] = true
+				fns = append(fns, fn)
+			}
 		}
 	}
 	sort.Slice(fns, func(i, j int) bool { return fns[i].String() < fns[j].String() })
@@ -423,8 +439,9 @@ func RunCheck(opt Options) int {
 	}
 	tb = append(tb, propAssumptions(opt.Prop)...)
 	ev.Coverage = map[string]interface{}{
-		"obligations":              len(names),
+		"obligations":              len(names) - len(knownHit),
 		"discharged":               discharged,
+		"obligations_including_known_findings": len(names),
 		"vc_instances":             len(obs),
 		"checker_cmd":              fmt.Sprintf("/verif/bin/gowp check --prop %s --tier %s", opt.Prop, opt.Tier),
 		"trusted_base":             tb,
